@@ -203,6 +203,14 @@ func main() {
 		a, b := make([]byte, rng.Intn(500)), make([]byte, rng.Intn(1000))
 		guard(fmt.Sprintf("Words (%d : Int64) (%d : Int64)", len(a), len(b)), lu(p.Words(a, b)))
 	}
+	for i := 0; i < 2*N; i++ {
+		h := &p.Hdr{Time: bigv(), Diff: bigv()}
+		t, id := u64(), uint64(rng.Intn(2))*7
+		r := p.InPlace(t, h, id)
+		// parameters: globals (bigTen, minD), global cell (Main.Time), t, cells of h (Time, Diff), id
+		guard(fmt.Sprintf("InPlace (g_p_bigTen := 10) (g_p_minD := 5) (g_p_Main_Time := some 7) %s (h_Time := %s) (h_Diff := %s) %s", lu(t), lob(h.Time), lob(h.Diff), lu(id)),
+			"some "+lB(r))
+	}
 	for a := uint64(0); a < 12; a++ {
 		var r uint64
 		if try(func() { r = p.Panics(a) }) {
